@@ -33,11 +33,18 @@ type caseRec struct {
 	Flush    uint64   `json:"flush_mask"`
 	InBlock  uint64   `json:"inblock_flush_mask,omitempty"`
 	ResetTo  uint32   `json:"reset_to,omitempty"`
+	Ahead    int      `json:"headers_ahead,omitempty"`
+	Prune    bool     `json:"pruning_node,omitempty"`
 	GCFirst  bool     `json:"gc_first,omitempty"`
 	Batches  int      `json:"batches"`
 	Crash    int      `json:"crash_after_batches"`
 	What     string   `json:"what"`
 	Diff     []string `json:"diff,omitempty"`
+	// gcrun cases (ext_gc_test.go)
+	GC        *gcParams `json:"gcrun,omitempty"`
+	Class     string    `json:"class,omitempty"`
+	Phase     string    `json:"phase,omitempty"`
+	PagesKept bool      `json:"pages_kept,omitempty"`
 }
 
 type env struct {
@@ -46,6 +53,8 @@ type env struct {
 	sc  *chainx.Scenario
 	cfg func(*config.Blockchain) // node-local options of the crashing node
 	gc  bool
+	// ahead > 0: headers run ahead of blocks, as on a synchronising node (ext_ahead_test.go)
+	ahead int
 }
 
 func (e *env) opts(st storage.Store) chainx.Opts {
@@ -222,8 +231,9 @@ func (e *env) runPersist(h []int, mask uint64, scen string, inblock ...uint64) (
 	}
 	blocks, obs := e.sc.Blocks(h)
 	mk := func(i, n int, what string, diff []string) *caseRec {
-		return &caseRec{Scenario: scen, Family: e.sc.Fam.Name, Pad: e.sc.Pad, History: e.sc.Names(h), Flush: mask, InBlock: inMask, Batches: n, Crash: i, What: what, Diff: diff}
+		return &caseRec{Scenario: scen, Family: e.sc.Fam.Name, Pad: e.sc.Pad, History: e.sc.Names(h), Flush: mask, InBlock: inMask, Ahead: e.ahead, Prune: e.gc, Batches: n, Crash: i, What: what, Diff: diff}
 	}
+	af := newAheadFeeder(e, blocks)
 	rs := chainx.NewRecStore(storage.NewMemoryStore())
 	var accepted []uint32 // height accepted when batch i was written
 	var cur uint32
@@ -249,7 +259,10 @@ func (e *env) runPersist(h []int, mask uint64, scen string, inblock ...uint64) (
 				}
 			})
 		}
-		err := n.AddBytes(bb)
+		err := af.before(n, k)
+		if err == nil {
+			err = n.AddBytes(bb)
+		}
 		n.BC.VerifSetPointHook(nil)
 		if err == nil {
 			err = hookErr
@@ -292,7 +305,11 @@ func (e *env) runPersist(h []int, mask uint64, scen string, inblock ...uint64) (
 func (e *env) runReset(h []int, to uint32, gcFirst bool) (crashes int, rec *caseRec) {
 	blocks, obs := e.sc.Blocks(h)
 	mk := func(i, n int, what string, diff []string) *caseRec {
-		return &caseRec{Scenario: "reset", Family: e.sc.Fam.Name, Pad: e.sc.Pad, History: e.sc.Names(h), ResetTo: to, GCFirst: gcFirst, Batches: n, Crash: i, What: what, Diff: diff}
+		scen := "reset"
+		if e.gc {
+			scen = "reset-prune" // the same reset on a RemoveUntraceableBlocks node
+		}
+		return &caseRec{Scenario: scen, Family: e.sc.Fam.Name, Pad: e.sc.Pad, History: e.sc.Names(h), ResetTo: to, GCFirst: gcFirst, Ahead: e.ahead, Prune: e.gc, Batches: n, Crash: i, What: what, Diff: diff}
 	}
 	rs := chainx.NewRecStore(storage.NewMemoryStore())
 	n, err := chainx.New(e.opts(rs))
@@ -300,6 +317,14 @@ func (e *env) runReset(h []int, to uint32, gcFirst bool) (crashes int, rec *case
 		return 0, mk(-1, 0, "start: "+err.Error(), nil)
 	}
 	for k, bb := range blocks {
+		if k >= len(blocks)-e.ahead {
+			// the node knows only the headers of the last e.ahead blocks when it is reset
+			if err := newAheadFeeder(e, blocks).headersUpTo(n, len(blocks)); err != nil {
+				n.Close()
+				return 0, mk(-1, 0, fmt.Sprintf("headers up to %d rejected: %v", len(blocks), err), nil)
+			}
+			break
+		}
 		if err := n.AddBytes(bb); err != nil {
 			n.Close()
 			return 0, mk(-1, 0, fmt.Sprintf("block %d rejected: %v", k+1, err), nil)
@@ -319,7 +344,7 @@ func (e *env) runReset(h []int, to uint32, gcFirst bool) (crashes int, rec *case
 		v, ok := b.Put[string([]byte{byte(storage.SYSStateChangeStage)})]
 		return ok && len(v) == 1 && v[0] == lastStage
 	}
-	deadline := time.Now().Add(20 * time.Second) // liveness guard of the gate only
+	deadline := time.Now().Add(4 * time.Second) // liveness guard of the gate only (the awaited batch may have been merged away)
 	wait := func(p *bool) {
 		for !*p && time.Now().Before(deadline) {
 			t := time.AfterFunc(100*time.Millisecond, func() { gmu.Lock(); cond.Broadcast(); gmu.Unlock() })
@@ -372,6 +397,7 @@ func (e *env) runReset(h []int, to uint32, gcFirst bool) (crashes int, rec *case
 	batches := rs.Batches()
 	finalDump := chainx.Dump(rs)
 	// completed reset: indistinguishable from a node that only synchronised to `to`
+	var known *caseRec
 	for i := base; i <= len(batches); i++ {
 		want := -1
 		var fd []string
@@ -384,10 +410,19 @@ func (e *env) runReset(h []int, to uint32, gcFirst bool) (crashes int, rec *case
 		}
 		crashes++
 		if what, diff := e.recoverAndCheck(batches, i, maxH, want, blocks, obs, fd); what != "" {
+			if e.gc && strings.Contains(what, "rejects block") && strings.Contains(what, "apply MPT changes") {
+				// open finding (reference counters are not rolled back by a reset of a pruning node): the
+				// restart, the state at the target and the database content of THIS crash point were fine;
+				// keep looking at the other crash points, any other failure takes precedence
+				if known == nil {
+					known = mk(i-base, len(batches)-base, what, diff)
+				}
+				continue
+			}
 			return crashes, mk(i-base, len(batches)-base, what, diff)
 		}
 	}
-	return crashes, nil
+	return crashes, known
 }
 
 func TestCheck(t *testing.T) {
@@ -438,11 +473,32 @@ func TestCheck(t *testing.T) {
 			pad := vk.Pick(r, 10, 14)
 			e := mkEnv(f, pad, nil, false)
 			plans = append(plans, plan{e, "pages"})
+			// headers ahead of blocks (a synchronising node): pages completed by headers alone, start-up
+			// walking over headers that have no blocks yet; 2 = inside a page, 5 = more than a page
+			for _, a := range vk.Pick(r, []int{2, 5}, []int{1, 2, 3, 5, 9}) {
+				ea := *e
+				ea.ahead = a
+				plans = append(plans, plan{&ea, "pages"})
+			}
+			if !f.SRIH || r.Thorough() {
+				// state reset across header-hash pages (every target height; DeleteHeaderHashesHead and the
+				// re-initialisation of the header hashes only do something when pages exist), also with
+				// headers ahead of the blocks when the reset starts
+				plans = append(plans, plan{e, "reset-pages"})
+				for _, a := range vk.Pick(r, []int{2}, []int{1, 2, 5}) {
+					ea := *e
+					ea.ahead = a
+					plans = append(plans, plan{&ea, "reset-pages"})
+				}
+			}
 			if !f.SRIH || r.Thorough() {
 				// a pruning node: only with small pages old blocks, transactions and header-hash pages are
 				// really deleted by the GC (it never deletes inside the current page)
 				g := mkEnv(f, pad+8, prunePages, true)
 				plans = append(plans, plan{g, "pages"})
+				ga := *g
+				ga.ahead = 2
+				plans = append(plans, plan{&ga, "pages"})
 			}
 		}
 		fams = nil
@@ -468,6 +524,20 @@ func TestCheck(t *testing.T) {
 		plans = append(plans, plan{e, "persist"})
 		if r.Thorough() || !f.SRIH {
 			plans = append(plans, plan{e, "reset"}) // quick: the reset does not look at StateRootInHeader
+			// the same resets on a RemoveUntraceableBlocks node: allowed while the chain is shorter than
+			// MaxTraceableBlocks (6 / 8 here, the histories end at 5 / 6); the storage stage then reads the
+			// target state through a trie store in GC mode
+			pe := *e
+			pe.cfg = prune
+			pe.gc = true
+			plans = append(plans, plan{&pe, "reset"})
+		}
+		if f.Name == "single" || r.Thorough() {
+			// KeepOnlyLatestState: the trie keeps reference counters and deletes replaced nodes in the
+			// block's own batch; a crash between batches must still leave a trie the node can continue with
+			le := *e
+			le.cfg = keepLatest
+			plans = append(plans, plan{&le, "latest"})
 		}
 		if f.Name == "single" || (r.Thorough() && f.Name == "multi") {
 			// GC needs height > MaxTraceableBlocks+1: longer preamble
@@ -547,6 +617,8 @@ func TestCheck(t *testing.T) {
 			for k := nPre - 1; k < total; k++ {
 				masks = append(masks, 1<<uint(k)) // a single flush at each boundary from the last preamble block on
 			}
+		case "latest":
+			masks = []uint64{all, 0, 0x5555555555555555 & all}
 		case "gc":
 			masks = []uint64{all, 0xAAAAAAAAAAAAAAAA&all | 1<<uint(total-1)}
 		case "pages":
@@ -560,9 +632,12 @@ func TestCheck(t *testing.T) {
 		}
 		for _, h := range p.e.hs {
 			switch p.kind {
-			case "reset":
-				for to := uint32(1); to < uint32(total); to++ {
-					if !r.Thorough() && to < uint32(nPre)-1 && os.Getenv("C02_RESETBATCH") == "" {
+			case "reset", "reset-pages":
+				for to := uint32(1); to <= uint32(total-p.e.ahead); to++ {
+					if to == uint32(total) {
+						break // nothing to reset (with headers ahead the tip itself is a target: the headers go)
+					}
+					if !r.Thorough() && to < uint32(nPre)-1 && os.Getenv("C02_RESETBATCH") == "" && p.kind == "reset" {
 						continue // quick: reset targets in and just below the history part
 					}
 					for _, gf := range []bool{false, true} {
@@ -572,6 +647,10 @@ func TestCheck(t *testing.T) {
 			default:
 				for _, m := range masks {
 					jobs = append(jobs, job{p: p, h: h, mask: m})
+				}
+				if p.kind == "latest" {
+					jobs = append(jobs, job{p: p, h: h, inblock: all})
+					jobs = append(jobs, job{p: p, h: h, mask: all, inblock: all})
 				}
 				if p.kind == "persist" {
 					// flushes landing INSIDE AddBlock (after the header part) of each history
@@ -586,11 +665,19 @@ func TestCheck(t *testing.T) {
 		}
 	}
 	sets := vk.NewSet()
+	kinds := vk.NewSet()
+	var gcst *gcStats
+	if only := os.Getenv("C02_ONLY"); (only == "" || only == "gcrun") && os.Getenv("C02_RESETBATCH") == "" {
+		// long pruning+GC histories with the Run loop's cadence (ext_gc_test.go); first, so that a
+		// deadline cuts the older plans' tail rather than this family
+		gcst = runGCPlans(r, sets)
+	}
+	late := make([]*caseRec, len(jobs))
 	r.Parallel(len(jobs), func(i int) {
 		j := jobs[i]
 		var c int
 		var rec *caseRec
-		if j.p.kind == "reset" {
+		if j.p.kind == "reset" || j.p.kind == "reset-pages" {
 			c, rec = j.p.e.runReset(j.h, j.to, j.gcFirst)
 		} else {
 			kind := j.p.kind
@@ -601,32 +688,94 @@ func TestCheck(t *testing.T) {
 		}
 		crashes.Add(c)
 		runs.Inc()
-		sets.Add(fmt.Sprintf("%s/%s/%v/%x/%x/%d/%v", j.p.kind, j.p.e.sc.Fam.Name, j.h, j.mask, j.inblock, j.to, j.gcFirst))
-		if rec != nil {
+		sets.Add(fmt.Sprintf("%s/%s/%v/%x/%x/%d/%v/a%d/%v", j.p.kind, j.p.e.sc.Fam.Name, j.h, j.mask, j.inblock, j.to, j.gcFirst, j.p.e.ahead, j.p.e.gc))
+		kinds.Add(fmt.Sprintf("%s/ahead%d/gc=%v", j.p.kind, j.p.e.ahead, j.p.e.gc))
+		if rec != nil && rec.Scenario == "reset-prune" {
+			// reported after the loop: one violation per failure class, first case in plan order
+			r.Outcome(j.p.kind + "-prune:violation")
+			late[i] = rec
+		} else if rec != nil {
 			r.Outcome(j.p.kind + ":violation")
 			what := rec.What
 			if len(what) > 40 {
 				what = what[:40]
 			}
-			r.Violation(fmt.Sprintf("%s:%s:%s:%s:f%x:to%d:gcfirst=%v:crash%d/%d", rec.Scenario, what, rec.Family, strings.Join(rec.History, ",")+fmt.Sprintf(":in%x", rec.InBlock), rec.Flush, rec.ResetTo, rec.GCFirst, rec.Crash, rec.Batches), rec)
+			r.Violation(fmt.Sprintf("%s:%s:%s:%s:f%x:to%d:gcfirst=%v:crash%d/%d", rec.Scenario, what, rec.Family, strings.Join(rec.History, ",")+fmt.Sprintf(":in%x", rec.InBlock)+aheadTag(rec.Ahead), rec.Flush, rec.ResetTo, rec.GCFirst, rec.Crash, rec.Batches), rec)
 		} else {
 			r.Outcome(j.p.kind + ":all crash points consistent")
 			r.Sample(map[string]any{"scenario": j.p.kind, "family": j.p.e.sc.Fam.Name, "history": j.p.e.sc.Names(j.h), "flush_mask": j.mask, "reset_to": j.to, "gc_first": j.gcFirst, "crash_points": c})
 		}
 	})
-	r.Finish(map[string]any{
+	lateSeen := map[string]int{}
+	for _, rec := range late {
+		if rec == nil {
+			continue
+		}
+		class := strings.Map(func(c rune) rune {
+			if c >= '0' && c <= '9' {
+				return -1
+			}
+			return c
+		}, rec.What)
+		if len(class) > 40 { // short: vk truncates replay file names at 80 characters
+			class = class[:40]
+		}
+		lateSeen[class]++
+		if lateSeen[class] == 1 {
+			// no crash index in the key: the reset's background persister merges batches differently from run to run
+			r.Violation(fmt.Sprintf("%s:%s:%s:%s:to%d:gcfirst=%v", rec.Scenario, class, rec.Family, strings.Join(rec.History, ","), rec.ResetTo, rec.GCFirst), rec)
+		}
+	}
+	cov := map[string]any{}
+	if len(lateSeen) > 0 {
+		cov["reset_prune_cases_per_failure_class"] = lateSeen
+	}
+	if gcst != nil {
+		mtbs, hists, hl, _ := gcPlan(r)
+		crashes.Add(int(gcst.crashes.Get()))
+		runs.Add(int(gcst.cases.Get()))
+		cov["gcrun_cases"] = int(gcst.cases.Get())
+		cov["gcrun_crash_points"] = int(gcst.crashes.Get())
+		cov["gcrun_batches"] = int(gcst.batches.Get())
+		cov["gcrun_seekgc_batches"] = int(gcst.gcBatches.Get())
+		cov["gcrun_block_tx_aer_records_deleted"] = int(gcst.blockDel.Get())
+		cov["gcrun_header_hash_pages_deleted"] = int(gcst.pageDel.Get())
+		cov["gcrun_transfer_log_batches_deleted"] = int(gcst.xferDel.Get())
+		cov["gcrun_mpt_nodes_deleted"] = int(gcst.mptDel.Get())
+		cov["gcrun_backend_runs_compared"] = int(gcst.backendRuns.Get())
+		cov["gcrun_failure_classes"] = gcst.classes.Len()
+		if len(gcst.affected) > 0 {
+			cov["gcrun_cases_per_failure_class"] = gcst.affected
+		}
+		cov["gcrun_alphabet"] = fmt.Sprintf("MaxTraceableBlocks %v x GarbageCollectionPeriod x flush cadence (see gcPlan) x histories %v of %d blocks, + block-between-flush-and-GC variants, + second-level crash cases", mtbs, hists, hl)
+	}
+	cov["plan_variants"] = kinds.Len() // distinct (plan kind, headers ahead, pruning) combinations run
+	for k, v := range map[string]any{
 		"evaluations":         int(crashes.Get()),
 		"distinct_nontrivial": sets.Len(),
 		"rule":                "a case = (scenario kind, family, block history, flush schedule | reset target + race order); for each case EVERY prefix of the recorded batch log is recovered with a new Blockchain and compared with the reference replica, then fed the remaining blocks; evaluations = crash points recovered; distinct_nontrivial = distinct cases (each has >= 2 batches)",
 		"runs":                int(runs.Get()),
 		"block_alphabet":      names,
 		"history_depth":       depth,
-		"scenarios":           "epoch (multi family: committee-changing block + 7 empty blocks across the epoch boundary, single flush at each boundary), persist (flush schedules at block boundaries AND inside AddBlock after its header part, hook H5), gc (RemoveUntraceableBlocks, GC after every flush), reset (every target height, both orders of the persister/direct-deletion race)",
-	}, []string{
+		"scenarios":           "gcrun (pruning node driven like Blockchain.Run: persist + tryRunGC every k blocks, GarbageCollectionPeriod x MaxTraceableBlocks x cadence, long histories over several header-hash pages, every batch prefix a crash point, recovered node continues with the same cadence, is killed again, fed the rest and restarted gracefully; audit = state + everything traceable + transfer log), epoch (multi family: committee-changing block + 7 empty blocks across the epoch boundary, single flush at each boundary), persist (flush schedules at block boundaries AND inside AddBlock after its header part, hook H5), gc (RemoveUntraceableBlocks, GC after every flush), reset (every target height, both orders of the persister/direct-deletion race)",
+	} {
+		cov[k] = v
+	}
+	r.Finish(cov, []string{
 		"one PutChangeSet / one SeekGC pass is atomic and durable (backend trusted, as the property states)",
 		"batches of the reset's background persister may merge differently from run to run (coarser merges only remove crash points); the order of the last stage batch and the direct deletion is forced both ways",
 		"state-sync jump crash points are explored in C20's state-sync part",
+		"gcrun: a RemoveUntraceableBlocks node must keep what docs/node-configuration.md promises: the last MaxTraceableBlocks blocks / transactions / execution results / state tries and their transfer log entries; older data may or may not be there",
 	})
+}
+
+func keepLatest(c *config.Blockchain) { c.Ledger.KeepOnlyLatestState = true }
+
+func aheadTag(a int) string {
+	if a == 0 {
+		return "" // keys of the older scenarios stay as they were
+	}
+	return fmt.Sprintf(":ahead%d", a)
 }
 
 func replay(r *vk.Run) {
@@ -634,6 +783,10 @@ func replay(r *vk.Run) {
 	if err := r.ReadReplay(&c); err != nil {
 		fmt.Println("cannot read replay:", err)
 		os.Exit(3)
+	}
+	if c.Scenario == "gcrun" && c.GC != nil {
+		replayGC(r, &c)
+		return
 	}
 	var fam chainx.Family
 	for _, f := range chainx.Families() {
@@ -655,8 +808,11 @@ func replay(r *vk.Run) {
 				os.Exit(3)
 			}
 		}
-		e := &env{r: r, sc: sc}
-		if c.Scenario == "gc" {
+		e := &env{r: r, sc: sc, ahead: c.Ahead}
+		if c.Scenario == "latest" {
+			e.cfg = keepLatest
+		}
+		if c.Scenario == "gc" || c.Prune {
 			e.gc = true
 			e.cfg = func(c *config.Blockchain) {
 				c.Ledger.RemoveUntraceableBlocks = true
@@ -664,7 +820,7 @@ func replay(r *vk.Run) {
 			}
 		}
 		var rec *caseRec
-		if c.Scenario == "reset" {
+		if c.Scenario == "reset" || c.Scenario == "reset-prune" {
 			_, rec = e.runReset(h, c.ResetTo, c.GCFirst)
 		} else {
 			_, rec = e.runPersist(h, c.Flush, c.Scenario, c.InBlock)
